@@ -85,6 +85,54 @@ Proof.
         constructor; [lia|exact Hup].
 Qed.
 
+Lemma take_nonempty limit lseq : forall rs size t r e, rs <> [] -> take limit lseq rs size = (t, r, e) -> t <> [].
+Proof.
+  intros rs size t r e Hne Ht. destruct rs as [|c rs]; [contradiction|]. cbn in Ht.
+  destruct (c_seq c =? lseq); [injection Ht as <- _ _; discriminate|].
+  destruct (limit <=? size + c_size c).
+  - destruct rs; injection Ht as <- _ _; discriminate.
+  - destruct (take limit lseq rs (size + c_size c)) as [[t' r'] e']. injection Ht as <- _ _. discriminate.
+Qed.
+
+(* while a message is being filled it is below the limit *)
+Lemma take_size limit lseq : forall rs size t r e,
+  take limit lseq rs size = (t, r, e) -> (2 <= length t)%nat -> size + sumsz (removelast t) < limit.
+Proof.
+  induction rs as [|c rs IH]; intros size t r e Ht Hl.
+  - cbn in Ht. injection Ht as <- _ _. cbn in Hl. lia.
+  - cbn in Ht. destruct (c_seq c =? lseq); [injection Ht as <- _ _; cbn in Hl; lia|].
+    destruct (limit <=? size + c_size c) eqn:El.
+    + destruct rs; injection Ht as <- _ _; cbn in Hl; lia.
+    + apply Z.leb_gt in El.
+      destruct (take limit lseq rs (size + c_size c)) as [[t' r'] e'] eqn:Hrec. injection Ht as <- _ _.
+      destruct t' as [|c1 t'']; [cbn in Hl; lia|].
+      destruct t'' as [|c2 t3].
+      * cbn. lia.
+      * specialize (IH (size + c_size c) (c1 :: c2 :: t3) r' e' Hrec ltac:(cbn; lia)).
+        change (removelast (c :: c1 :: c2 :: t3)) with (c :: removelast (c1 :: c2 :: t3)).
+        remember (removelast (c1 :: c2 :: t3)) as L.
+        change (sumsz (c :: L)) with (c_size c + sumsz L). lia.
+Qed.
+
+Lemma next_size limit st ch st' : next limit st = Some (ch, st') -> size_ok_b limit ch = true.
+Proof.
+  unfold next. destruct (done st); [discriminate|].
+  destruct (take limit (last_seq st) (rest st) 0) as [[t r] e] eqn:Ht.
+  assert (H : size_ok_b limit (t, (0, 0)) = true).
+  { unfold size_ok_b. cbn [fst]. destruct (Nat.leb (length t) 1) eqn:E; [reflexivity|]. cbn.
+    apply Nat.leb_gt in E. apply Z.ltb_lt. pose proof (take_size _ _ _ _ _ _ _ Ht ltac:(lia)). lia. }
+  destruct e; intros Hn; injection Hn as <- _; exact H.
+Qed.
+
+Theorem run_sizes : forall lims st out stf, run lims st = (out, stf) -> sizes_ok_b lims out = true.
+Proof.
+  induction lims as [|l lims IH]; intros st out stf Hr; cbn in Hr.
+  - injection Hr as <- _. reflexivity.
+  - destruct (next l st) as [[ch st']|] eqn:En; [|injection Hr as <- _; reflexivity].
+    destruct (run lims st') as [chs stf'] eqn:Er. injection Hr as <- _.
+    cbn. rewrite (next_size _ _ _ _ En), (IH _ _ _ Er). reflexivity.
+Qed.
+
 Lemma take_length limit lseq : forall rs size t r e,
   take limit lseq rs size = (t, r, e) -> e <> None -> (length r < length rs)%nat.
 Proof.
@@ -257,8 +305,8 @@ Proof.
       specialize (IH (s + k) e s0 ltac:(lia) ltac:(lia) Hf') as [IH1 IH2].
       split.
       * intros b [<-|Hb]; [cbn; lia|apply IH1, Hb].
-      * intros x Hx. destruct (Z_le_gt_dec x (s + k)) as [Hxs|Hxs].
-        -- exists (s, Z.min (s + k) e). split; [left; reflexivity|cbn; lia].
+      * intros x Hx. destruct (Z_le_gt_dec x (s + (k - 1))) as [Hxs|Hxs].
+        -- exists (s, Z.min (s + (k - 1)) e). split; [left; reflexivity|cbn; lia].
         -- destruct (IH2 x ltac:(lia)) as (b & Hb & Hbx). exists b. split; [right; exact Hb|exact Hbx].
     + split; [intros b []|]. intros x Hx. lia.
 Qed.
@@ -267,6 +315,37 @@ Lemma chunk_range_spec s e k : 1 <= k -> s <= e -> range_spec s e (chunk_range s
 Proof.
   intros Hk Hse. unfold chunk_range, range_spec.
   apply (chunk_range_fuel_spec k Hk _ s e s); try lia.
+Qed.
+
+(* the blocks partition the range and hold at most k versions each *)
+Lemma chunk_range_fuel_tiles k e : 1 <= k -> forall fuel s,
+  s <= e -> (e - s) / k + 1 <= Z.of_nat fuel -> rtiles_b s e k (chunk_range_fuel fuel s e k) = true.
+Proof.
+  intros Hk. induction fuel as [|f IH]; intros s Hse Hf.
+  - exfalso. assert (0 <= (e - s) / k) by (apply Z.div_pos; lia). lia.
+  - cbn [chunk_range_fuel]. destruct (s <=? e) eqn:Hle; [|apply Z.leb_gt in Hle; lia].
+    cbn [rtiles_b]. rewrite Z.eqb_refl. cbn [andb].
+    assert (H1 : (s <=? Z.min (s + (k - 1)) e) = true) by (apply Z.leb_le; lia).
+    assert (H2 : (Z.min (s + (k - 1)) e - s + 1 <=? k) = true) by (apply Z.leb_le; lia).
+    rewrite H1, H2. cbn [andb].
+    destruct (Z_lt_le_dec e (s + k)) as [Hlast|Hmore].
+    + (* last block *)
+      assert (Hrest : chunk_range_fuel f (s + k) e k = []).
+      { destruct f; cbn; [reflexivity|]. destruct (s + k <=? e) eqn:E; [apply Z.leb_le in E; lia|reflexivity]. }
+      rewrite Hrest. apply Z.eqb_eq. lia.
+    + assert (Hf' : (e - (s + k)) / k + 1 <= Z.of_nat f).
+      { replace (e - (s + k)) with ((e - s) + (-1) * k) by lia. rewrite Z.div_add by lia. lia. }
+      specialize (IH (s + k) ltac:(lia) Hf').
+      destruct (chunk_range_fuel f (s + k) e k) as [|b rest] eqn:Er; [cbn in IH; discriminate|].
+      assert (Hb : (Z.min (s + (k - 1)) e <? e) = true) by (apply Z.ltb_lt; lia).
+      rewrite Hb. cbn [andb].
+      replace (Z.min (s + (k - 1)) e + 1) with (s + k) by lia. exact IH.
+Qed.
+
+Theorem chunk_range_tiles s e k : 1 <= k -> s <= e -> rtiles_b s e k (chunk_range s e k) = true.
+Proof.
+  intros Hk Hse. unfold chunk_range. apply chunk_range_fuel_tiles; [exact Hk|exact Hse|].
+  rewrite Z2Nat.id; [lia|]. assert (0 <= (e - s) / k) by (apply Z.div_pos; lia). lia.
 Qed.
 
 Lemma In_zseq x s e : In x (zseq s e) <-> s <= x <= e.
